@@ -22,6 +22,9 @@ import (
 	"github.com/PowerDNS/lightningstream/snapshot"
 
 	"verif/lib/ev"
+	"verif/lib/explore"
+	"verif/lib/recvworld"
+	"verif/lib/xrun"
 	"verif/lib/par"
 	"verif/lib/pb"
 	"verif/lib/world"
@@ -337,9 +340,20 @@ func runTask(payload []byte) []byte {
 	return out
 }
 
+// part (b): undecodable blobs placed among valid snapshots, in the receiver scenario (engine E3).
+func runRecv(param json.RawMessage, ctx *explore.Ctx, viols *[]xrun.Viol) string {
+	var cfg recvworld.Cfg
+	_ = json.Unmarshal(param, &cfg)
+	res := recvworld.Run(cfg, ctx)
+	for _, v := range res.Viols {
+		*viols = append(*viols, xrun.Viol{Sig: v.Sig, Msg: v.Msg})
+	}
+	return res.Outcome
+}
+
 func main() {
 	flag.Parse()
-	par.ServeIfWorker(map[string]par.Handler{"t": runTask})
+	par.ServeIfWorker(map[string]par.Handler{"t": runTask, "recv": xrun.Handler(runRecv)})
 	r := ev.Start("C08")
 	defer r.RecoverMain()
 	defer world.Cleanup()
@@ -414,5 +428,18 @@ func main() {
 	part.Bound = fmt.Sprintf("%d base messages (<=350 bytes, incl. unknown fields and late DBI fields): every field occurrence at every nesting level x {8 wire types, ~35 adversarial tag values, ~35 adversarial length values incl. 2^63.., 2^64-k}; every truncation; every single-bit flip; every single-byte substitution (quick: 3 bases); gzip container truncations/bit flips for %d bases", nb, ev.Pick(r, 2, nb))
 	r.Extra("outcome_classes", classes)
 	r.AddPart(part)
+
+	// ---------- part (b) ----------
+	r.SetBudget(ev.Pick(r, 150*time.Second, 30*time.Minute))
+	placements := [][]string{{"b:newest"}, {"b:older"}, {"c:only"}, {"b:newest", "c:only"}, {"b:newest", "c:newest"}}
+	for _, pl := range placements {
+		name := "receiver-placement-" + strings.Join(pl, "+")
+		if r.Expired() {
+			r.AddPart(&ev.Part{Name: name, Engine: "E3", Exhaustive: false, Bound: "not started: time budget used up"})
+			continue
+		}
+		xrun.Explore(r, name, xrun.Opts{Kind: "recv", Bound: ev.Pick(r, 1, 2), Budget: 40, Recycle: 2,
+			Param: recvworld.Cfg{DownloadLimit: 2, DecompressLimit: ev.Pick(r, 1, 2), Instances: []string{"b", "c"}, Corrupt: pl, Faults: r.Thorough(), Polls: 1}})
+	}
 	r.Finish()
 }
